@@ -98,6 +98,7 @@ type SpecLib struct {
 	Insts     []*Instantiate
 	Trusted   []*Contract
 	Schemas   []*Contract
+	Frozen    []string
 	Immutable [][2]string
 	Dispatch  map[string]string
 	Guarded   []GuardDecl
@@ -304,6 +305,16 @@ func (lib *SpecLib) parseLines(lines []rawLine, pkgPath string, isSpec bool) err
 					return fail("guarded needs Type.field")
 				}
 				lib.Guarded = append(lib.Guarded, GuardDecl{Pkg: pkgPath, Type: tf[0], Field: tf[1], Mutex: strings.TrimSpace(parts[1]), Tags: tags})
+			}
+		case word == "frozen" && isSpec:
+			// frozen <pkgpath>.<Type>: ASSUMPTION about a dependency - objects of this type are not written once
+			// the dependency has handed them out (their fields survive the heap havoc of calls)
+			if err := finishClause(); err != nil {
+				return err
+			}
+			for _, f := range strings.Fields(rest) {
+				lib.Frozen = append(lib.Frozen, f)
+				lib.Assumes = append(lib.Assumes, "objects of type "+f+" are not modified after the dependency has produced them (frozen)")
 			}
 		case word == "immutable":
 			// immutable T.field, T.field2: fields written only when the object is built
